@@ -102,10 +102,15 @@ func (ex *Exec) intrinsic(fn *ssa.Function, args []Value) (Value, bool) {
 			}
 			return nil, true
 		case "vObserveInt", "vObserveBool", "vObserveBytes", "vObserveStr", "vObserveFloat":
+			ov := args[1]
+			if sl, ok := ov.(*SliceV); ok {
+				// snapshot: the observation is the content at the time of the call (as in the native run)
+				ov = &StringV{b: append([]*Term{}, ex.sliceTerms(sl)...)}
+			}
 			ex.observes = append(ex.observes, struct {
 				tag string
 				v   Value
-			}{ex.mustStr(args[0], "vObserve tag"), args[1]})
+			}{ex.mustStr(args[0], "vObserve tag"), ov})
 			return nil, true
 		case "vAnd":
 			return p.And(args[0].(*Term), args[1].(*Term)), true
@@ -192,6 +197,11 @@ func (ex *Exec) intrinsic(fn *ssa.Function, args []Value) (Value, bool) {
 		return ex.termsCmp(ex.sliceTerms(asSlice(args[0])), ex.sliceTerms(asSlice(args[1]))), true
 	case "bytes.Equal", "internal/bytealg.Equal":
 		return ex.termsEq(ex.sliceTerms(asSlice(args[0])), ex.sliceTerms(asSlice(args[1]))), true
+	case "internal/bytealg.MakeNoZero":
+		// contents are unspecified in Go; zeroed memory is one of the allowed results and the callers
+		// (strings.Builder) overwrite before they read
+		n := ex.concretise(args[0].(*Term), "MakeNoZero len")
+		return ex.newSlice(types.Typ[types.Uint8], n, n), true
 	case "strings.Compare", "internal/bytealg.CompareString":
 		return ex.termsCmp(args[0].(*StringV).b, args[1].(*StringV).b), true
 	case "hash/crc32.ChecksumIEEE":
@@ -270,6 +280,18 @@ func (ex *Exec) intrinsic(fn *ssa.Function, args []Value) (Value, bool) {
 			panic(pathAbort{why: "strings.SplitN with a symbolic count", incomplete: true})
 		}
 		return ex.split(args[0].(*StringV), ex.mustStr(args[1], "strings.SplitN sep"), int(int64(n.c))), true
+	case "strings.Join":
+		sl, sep := asSlice(args[0]), args[1].(*StringV)
+		out := &StringV{}
+		if sl != nil {
+			for i := 0; i < sl.ln; i++ {
+				if i > 0 {
+					out.b = append(out.b, sep.b...)
+				}
+				out.b = append(out.b, ex.elem(sl.arr, sl.off+i).v.(*StringV).b...)
+			}
+		}
+		return out, true
 	case "strings.Contains":
 		return ex.contains(args[0].(*StringV), ex.mustStr(args[1], "strings.Contains substr")), true
 	case "strings.TrimSuffix":
